@@ -32,7 +32,7 @@ def main():
         if rc != 0:
             print(json.dumps(res), out[-300:])
             return 1
-        if 'lexer.l' in open(patch).read():
+        if '+++ b/Compiler/src/lexer.l' in open(patch).read():
             sh('flex --outfile=./src/lex.yy.c --header-file=./include/lex.yy.h --noline --nounistd ./src/lexer.l', cwd=os.path.join(wt, 'Compiler'))
         rc, out = sh('cmake -G Ninja -S . -B _build >/dev/null && cmake --build _build -j8', cwd=wt)
         res['compiles'] = rc == 0
